@@ -17,6 +17,7 @@ from sympy import Symbol
 from sympy.logic.boolalg import And, Not, Or, Xor, simplify_logic
 
 from .. import QCircuit
+from .. import _verif
 
 # from ..boolopt import custom_simplify_logic
 from ..compiler import SupportedCompiler, exprs_to_quantum
@@ -48,6 +49,8 @@ def circuit_boolean_optimizer(
     qc = qc.copy(True)
     dc = Decompiler().decompile(qc)
     qc_new = qc.copy(True)
+    if _verif.ON:
+        _verif.emit("do.begin", sections=len(dc))
 
     # Set not-preserved qubits to False
     emap = {}
@@ -81,7 +84,32 @@ def circuit_boolean_optimizer(
             qc_sec = exprs_to_quantum(exprs=n_exps, symbols=symbols, compiler=compiler)
         except Exception:
             # the section cannot be resynthesized: keep it as it is
+            if _verif.ON:
+                _verif.emit(
+                    "do.section",
+                    index=section.index,
+                    ngates=len(section.gates),
+                    secq=sorted(section_qubits),
+                    raised=True,
+                    new=[],
+                    used=[],
+                    qmap=dict(qc.qubit_map),
+                    qmapnew={},
+                )
             continue
+
+        if _verif.ON:
+            _verif.emit(
+                "do.section",
+                index=section.index,
+                ngates=len(section.gates),
+                secq=sorted(section_qubits),
+                raised=False,
+                new=list(qc_sec.gates),
+                used=sorted(qc_sec.used_qubits),
+                qmap=dict(qc.qubit_map),
+                qmapnew=dict(qc_sec.qubit_map),
+            )
 
         if (
             len(qc_sec.gates) > len(section.gates)
